@@ -333,8 +333,8 @@ class Entry:
     needs_forward: bool = False  # buffers are created by the first call: the original always has one call before the save
     warm_only: bool = False  # ... and so has the destination of the state_dict route
     exact_tol: float = 0.0  # tolerance of the pickle / deepcopy comparison (0 = bitwise)
-    # the model keeps eval-mode caches outside an exact prediction strategy (memoised Cholesky factors, cached grid covariances): after
-    # a prediction made with autograd enabled they are non-leaf tensors, which torch documents as not deep-copyable
+    # the model keeps an eval-mode cache as a plain attribute (GridKernel._cached_kernel_mat): after a prediction made with autograd
+    # enabled it is a non-leaf tensor, which torch documents as not deep-copyable
     graph_caches: bool = False
 
 
@@ -1133,7 +1133,7 @@ for _s in STRATEGIES:
         if (_s, _d) in NOT_CONSTRUCTIBLE:
             continue
         register(f"svgp.{_s}.{_d}", "svgp", "svgp.multitask" if _s in ("LMC", "IndependentMultitask") else "svgp.strategies", _svgp_arch(_s, _d), _build_svgp,
-                 data=_svgp_data, random_buffer=True, graph_caches=True)
+                 data=_svgp_data, random_buffer=True)
 
 
 # ---- IndependentModelList ---------------------------------------------------------------------------------
@@ -1416,7 +1416,8 @@ def run_case(case, ctx: Ctx):
                 saved["deepcopy"] = copy.deepcopy(src)
             except RuntimeError as e:
                 # torch: "Only Tensors created explicitly by the user (graph leaves) support the deepcopy protocol".  Exact prediction
-                # strategies are dropped by the library on deepcopy precisely to avoid this, so there it stays a violation.
+                # strategies are dropped by the library on deepcopy precisely to avoid this, so there (and for the memoize caches of
+                # variational strategies, which every training step fills) it stays a violation.
                 if not (entry.graph_caches and graph_history and "deepcopy protocol" in str(e)):
                     raise
                 ctx.label("deepcopy_refused_graph_caches")
